@@ -34,6 +34,7 @@ def tasks(tier, params):
     out.append(('NULL', {'code': 10, 'K': K}))
     out.append(('UNKNOWN', {'code': 65280, 'K': K}))
     out.append(('overrun', {'code': 1, 'K': K, 'overrun': True}))
+    out.append(('OPT', {'code': 41, 'K': K + 2, 'opt': True}))
     # C01.alloc on record level: three minimal records of the types that own collections; the elements requested through
     # Vec::with_capacity while parsing must not exceed the message length
     for name, code, rd in (('TXT', 16, [0]), ('NSEC', 47, [0]), ('SVCB', 64, [0, 0, 0]), ('HTTPS', 65, [0, 0, 0])):
@@ -110,7 +111,11 @@ def run_task(prog, tid, params, tier):
             rdata1 = [fresh('u8', 'rd%d' % i) for i in range(rdlen)]
             ttl2, addr2, flush2 = fresh('u32', 'ttl2'), fresh('u32', 'addr2'), fresh('bool', 'fl2')
             cls2 = sc_from(z3.If(flush2.z(), z3.BitVecVal(0x8001, 16), z3.BitVecVal(1, 16)), 'u16')
-            msg = be_bytes(ident) + [mk('u8', 0)] * 2 + be_bytes(mk('u16', 0)) + be_bytes(mk('u16', 2)) + [mk('u8', 0)] * 4
+            if params.get('opt'):
+                # both records sit in the additional section; the OPT record is lifted out of it by Packet::parse
+                msg = be_bytes(ident) + [mk('u8', 0)] * 2 + be_bytes(mk('u16', 0)) * 3 + be_bytes(mk('u16', 2))
+            else:
+                msg = be_bytes(ident) + [mk('u8', 0)] * 2 + be_bytes(mk('u16', 0)) + be_bytes(mk('u16', 2)) + [mk('u8', 0)] * 4
             msg += [mk('u8', 0)] + be_bytes(mk('u16', code)) + be_bytes(cls1) + be_bytes(ttl1) + be_bytes(mk('u16', rdlen)) + rdata1
             walker_pos = len(msg)
             msg += [mk('u8', 0)] + be_bytes(mk('u16', 1)) + be_bytes(cls2) + be_bytes(ttl2) + be_bytes(mk('u16', 4)) + be_bytes(addr2)
@@ -138,10 +143,16 @@ def run_task(prog, tid, params, tier):
                 if cut:
                     return viol('overrun', 'a message whose last record runs past the end is accepted')
                 p = r.f[0]
-                answers = list(p.f[2].items)
-                if len(answers) != 2 or p.f[1].items or p.f[3].items or p.f[4].items:
-                    return viol('count', 'accepted with %d answers instead of the 2 delimited by ANCOUNT' % len(answers))
-                r1, r2 = answers
+                if params.get('opt'):
+                    add = list(p.f[4].items)
+                    if len(add) != 1 or p.f[0].f[4].var != 'Some' or p.f[1].items or p.f[2].items or p.f[3].items:
+                        return viol('count', 'OPT + A in the additional section: %d additional records returned, opt %s' % (len(add), p.f[0].f[4].var))
+                    r1, r2 = None, add[0]
+                else:
+                    answers = list(p.f[2].items)
+                    if len(answers) != 2 or p.f[1].items or p.f[3].items or p.f[4].items:
+                        return viol('count', 'accepted with %d answers instead of the 2 delimited by ANCOUNT' % len(answers))
+                    r1, r2 = answers
                 # record 2 must be the A record at the walker's position
                 if not (isinstance(r2.f[3], En) and r2.f[3].var == 'A'):
                     return viol('next-entry', 'the entry after record 1 is not decoded as the A record at the walker position')
@@ -150,7 +161,7 @@ def run_task(prog, tid, params, tier):
                 if res.ctx.check(bad2):
                     return viol('next-entry', 'record 2 fields are not those of the entry at the walker position (read from inside record 1?)')
                 # record 1 envelope
-                if res.ctx.check(r1.f[2].z() != ttl1.z()):
+                if r1 is not None and res.ctx.check(r1.f[2].z() != ttl1.z()):
                     return viol('envelope', 'record 1 TTL differs from its envelope')
                 return None
             v = X.explore(prog, run, on_path, loop_bound=64, stats=stats, timeout_ms=60000, max_paths=20000, hooks=HOOKS)
